@@ -55,6 +55,13 @@ def cases(ctx):
             pos, neg = (allv[nneg:], allv[:nneg]) if kind == "separated" else (allv[:npos], allv[npos:])
         ep, en = gen.easy(rng)
         sc, ec = gen.cfg(rng)
+        if i % 17 == 4:
+            # a class whose samples are all easy (no scored sample of it): it is not empty, and its samples still rank beyond every scored one
+            if rng.random() < 0.5:
+                pos, ep = pos[:0], int(rng.choice([1, 3, 40, max(ep, 1)]))
+            else:
+                neg, en = neg[:0], int(rng.choice([1, 3, 40, max(en, 1)]))
+            kind = kind + "+easyonly"
         N = len(neg) + en
         cands = [0.0, 1.0, float(rng.uniform()), float(rng.uniform()), float(rng.integers(0, N + 1)) / N, float(rng.integers(0, N + 1)) / N,
                  float(rng.uniform(0, 1.0 / N)), 1.0 - float(rng.uniform(0, 1.0 / N))]
